@@ -165,14 +165,12 @@ def attributes : Nat → Bytes → List (Bytes × Bytes) → L (List (Bytes × B
                 | (val, _ :: rest) =>
                   if val.contains 60 then ill "< in attribute value"
                   else
-                    match resolveRefs (val.length + 1) val with
+                    -- §3.3.3 attribute-value normalisation: every literal white space character becomes a space —
+                    -- on the text whose line ends are already normalised (§2.11: a CR LF pair is ONE line end, so
+                    -- one space); characters written as references are kept as they are
+                    match resolveRefs (val.length + 1) ((normEol val).map fun c => if isS c then 32 else c) with
+                    | some s' => attributes fuel rest ((name, s') :: acc)
                     | none => ill "bad reference in attribute value"
-                    | some s =>
-                      -- §3.3.3 attribute-value normalisation: literal white space becomes a space
-                      let _ := s
-                      match resolveRefs (val.length + 1) (val.map fun c => if isS c then 32 else c) with
-                      | some s' => attributes fuel rest ((name, s') :: acc)
-                      | none => ill "bad reference in attribute value"
               else ill "attribute value not quoted"
             | [] => ill "attribute without value"
           | _ => ill "attribute without ="
@@ -366,10 +364,6 @@ def parse (doc : Bytes) : L Node := parseWith true doc
 /-! ## 4. listed differences between the s3s tables and the Smithy model -/
 
 inductive ExcWhat where
-  /-- Smithy: `xmlAttribute`; s3s reads and writes a child element. OPEN finding `xml-xsi-type`. -/
-  | attrAsElement
-  /-- Smithy: member-level `xmlNamespace` (the `xmlns:xsi` declaration); s3s never writes it. Same finding. -/
-  | nsDeclDropped
   /-- Smithy: `required`; s3s makes the member optional on purpose (`codegen/src/v1/dto.rs::patch_types`). -/
   | requiredRelaxed
   deriving DecidableEq, Repr
@@ -379,17 +373,16 @@ structure Exc where
   tag : Bytes
   what : ExcWhat
 
+/-- Until the repair 1dc4ea8 this list also held `Grantee.xsi:type` (Smithy: `xmlAttribute`; s3s read and wrote a
+child element) and `Grant.Grantee` / `TargetGrant.Grantee` (Smithy: member-level `xmlNamespace`, the `xmlns:xsi`
+declaration; s3s never wrote it) — finding `xml-xsi-type`, fixed: the tables are compared with the Smithy model
+itself there now. -/
 def smithyExceptions : List Exc :=
-  [ ⟨.Grantee, t_xsi_x3Atype, .attrAsElement⟩,
-    ⟨.Grant, t_Grantee, .nsDeclDropped⟩,
-    ⟨.TargetGrant, t_Grantee, .nsDeclDropped⟩,
-    ⟨.Tag, t_Key, .requiredRelaxed⟩,
+  [ ⟨.Tag, t_Key, .requiredRelaxed⟩,
     ⟨.Tag, t_Value, .requiredRelaxed⟩ ]
 
 def applyWhat (w : ExcWhat) (f : FieldDef Ty) : FieldDef Ty :=
   match w with
-  | .attrAsElement => { f with attr := false }
-  | .nsDeclDropped => { f with nsdecl := false }
   | .requiredRelaxed => { f with pres := if f.pres = .req then .opt else f.pres }
 
 def applyExcs (excs : List Exc) (t : Ty) (d : Def Ty) : Def Ty :=
@@ -402,7 +395,7 @@ def applyExcs (excs : List Exc) (t : Ty) (d : Def Ty) : Def Ty :=
 def expectedDef (t : Ty) : Option (Def Ty) := (smithyDef t).map (applyExcs smithyExceptions t)
 
 /-- what the spec judge reads documents with: Smithy with only the deliberate relaxations applied
-(the differences that are findings stay visible) -/
+(a difference that is a finding is never listed here, so it stays visible) -/
 def judgeDef (t : Ty) : Option (Def Ty) :=
   (smithyDef t).map (applyExcs (smithyExceptions.filter fun e => e.what = .requiredRelaxed) t)
 
@@ -417,6 +410,13 @@ def defEqv : Def Ty → Def Ty → Bool
 
 def Def.serView : Def Ty → Def Ty
   | .struct fs => .struct (fs.map fun f => { f with pres := f.pres.serView })
+  | d => d
+
+/-- what a reader can be compared on: a namespace declaration is something a writer puts into a start tag; a
+restXml reader binds an attribute by its name as written (`xsi:type`, like the AWS SDKs) and has no counterpart of
+the declaration -/
+def Def.deView : Def Ty → Def Ty
+  | .struct fs => .struct (fs.map fun f => { f with nsdecl := false })
   | d => d
 
 /-! ## 3. restXml shape deserialisation (the value an independent client reads) -/
@@ -533,6 +533,7 @@ def valueOf (X : SpecExt) (tab : Ty → Option (Def Ty)) : Nat → Kind Ty → L
                   | _ =>
                     (mine.mapM fun e => valueOf X tab fuel f.kind e.2.1 e.2.2).map fun (vs : List Bytes) =>
                       f.tag ++ [61, 91] ++ (vs.flatMap fun v => v ++ [44]) ++ [93, 59]
+                | .attr => .error .table   -- tree schemas only; a table entry says `attr := true`
             match here, restV with
             | .ok a, .ok b => .ok (a ++ b)
             | .error e, _ => .error e
